@@ -567,3 +567,15 @@ Proof.
   - intros x l IHx IHl [Hx Hl]. apply exec_args_cons; auto.
 Qed.
 Print Assumptions exec_e.
+
+Lemma run_ops_end fuel d off len a r m : len <= a - off -> run_ops fuel d off len a r m = Ok (r, m).
+Proof. intros H. destruct fuel; cbn [run_ops]; destruct (a - off <? len) eqn:E; try lia; reflexivity. Qed.
+
+(* an expression that is the whole code of a handler *)
+Corollary exec_whole en e d off fuel r m :
+  wf_e en e -> agrees en m -> code_at d off (compile_e e) ->
+  exists r', run_ops (ninstr e + fuel) d off (zlen (compile_e e)) off r m = Ok (r', after_e en off e m).
+Proof.
+  intros Hwf Hag Hc. destruct (exec_e en e Hwf d off (zlen (compile_e e)) off fuel r m Hag Hc ltac:(lia) ltac:(lia)) as [r' E].
+  exists r'. rewrite E. apply run_ops_end. lia.
+Qed.
